@@ -3,14 +3,16 @@
 // application: every case starts a node in-process with app.Node.Prepare / app.Node.StartNode
 // (configuration files written for the case, a launch mode of three socket-free modules), so
 // that the INodeApp the controller talks to is node/app.App itself:
-//   GetService          -> app.Cluster / ClusterServices: the service directory rebuilt by
-//                          MakeMembers from whatever the cluster provider publishes, every
-//                          ServiceItem carrying a COPY of its node's state
-//   FilterSelfServices  -> the node's configured service list (nodes.yaml)
-//   UpdateNodeState     -> the provider (recorded: EPub)
-//   StopNode            -> baseapp.App.Stop: the modules are stopped in reverse order; the
-//                          first one to be stopped is the harness' gate module (recorded: EStop),
-//                          which completes when the history says so (OStopDone)
+//
+//	GetService          -> app.Cluster / ClusterServices: the service directory rebuilt by
+//	                       MakeMembers from whatever the cluster provider publishes, every
+//	                       ServiceItem carrying a COPY of its node's state
+//	FilterSelfServices  -> the node's configured service list (nodes.yaml)
+//	UpdateNodeState     -> the provider (recorded: EPub)
+//	StopNode            -> baseapp.App.Stop: the modules are stopped in reverse order; the
+//	                       first one to be stopped is the harness' gate module (recorded: EStop),
+//	                       which completes when the history says so (OStopDone)
+//
 // The cluster provider is modelled on clusterproviders/etcd: UpdateClusterState only records
 // the node's own state; the topology handed to the node is rebuilt - own member included, with
 // the state the provider knows at that moment - when cluster membership changes (OTopo) or the
